@@ -135,6 +135,13 @@ class MapOf(T):
         self.default_factory = default_factory
 
 
+class ExtT(T):
+    """Extension point: a type descriptor defined outside the core; `fresh(cfg, path, hint)` builds the value."""
+
+    def fresh(self, cfg, path, hint):
+        raise NotImplementedError
+
+
 class Event(T):
     """asyncio.Event with symbolic flag."""
 
@@ -249,6 +256,16 @@ def forall(lo, hi, f):
 
 def exists(lo, hi, f):
     return any(f(i) for i in range(lo, hi))
+
+
+_ORIGIN = {}  # id(entry copy) -> live object (filled by replay.snapshot)
+_KEEP = []
+
+
+def same(a, b):
+    """object identity that also works across `old`: natively the entry snapshot holds copies, so `old.x is y`
+    would always be false; same(old.x, y) asks whether y is the object that x was at entry"""
+    return _ORIGIN.get(id(a), a) is _ORIGIN.get(id(b), b)
 
 
 def implies(a, b):
